@@ -29,6 +29,7 @@ import (
 	"github.com/gauss-project/aurorafs/pkg/shed"
 	sldb "github.com/gauss-project/aurorafs/pkg/shed/leveldb"
 	"github.com/gauss-project/aurorafs/pkg/statestore/leveldb"
+	mockstate "github.com/gauss-project/aurorafs/pkg/statestore/mock"
 	"github.com/gauss-project/aurorafs/pkg/subscribe"
 	"github.com/gauss-project/aurorafs/pkg/topology/kademlia"
 	"github.com/gauss-project/aurorafs/pkg/topology/lightnode"
@@ -183,10 +184,7 @@ func New(seed uint64, adj [][]bool) (*Net, error) {
 		if err != nil {
 			return nil, err
 		}
-		st1, err := leveldb.NewInMemoryStateStore(logger)
-		if err != nil {
-			return nil, err
-		}
+		st1 := mockstate.NewStateStore() // address book only (Get/Put); the route table gets leveldb
 		st2, err := leveldb.NewInMemoryStateStore(logger)
 		if err != nil {
 			return nil, err
